@@ -665,7 +665,11 @@ class SX:
         """evaluate expression -> list of R (each with its own state)"""
         m = getattr(self, "ev_" + type(node).__name__, None)
         if m is None:
-            self.unsupported("expression %s" % type(node).__name__, node)
+            if self.spec_mode or isinstance(node, (ast.Yield, ast.YieldFrom, ast.Await, ast.Lambda)):
+                self.unsupported("expression %s" % type(node).__name__, node)
+            # an expression form the executor does not interpret (dict/set comprehension, ...): whatever it evaluates may call
+            # anything -- treated like a call without contract (everything reachable havocked, any result, any exception)
+            return Unknown("<%s expression>" % type(node).__name__).__pyvc_call__(self, [], {}, st, node)
         return m(node, st)
 
     def ev1(self, node, st):
@@ -788,6 +792,10 @@ class SX:
             self.unsupported("cannot store %r as %r" % (v, ty))
         if v.ty == ty:
             return v
+        if isinstance(v.ty, V.Opaque) and v.ty._n == "unknown" and not self.spec_mode:
+            # a value without contract used where a `ty` is expected: some value of that type (or the operation fails; the
+            # callers that care add their own TypeError edge)
+            return self.fresh(ty, "unknown_as", st)
         if isinstance(ty, V.Opt):
             if isinstance(v.ty, V._None) or v.ty == ty.inner:
                 return self.as_opt(v, ty)
